@@ -322,6 +322,17 @@ example : let s := setData (setNonce ADB.empty A1 1) A1 [0x6b] [7]
 /-- the side condition of `Suicide` in `StepOk` is exactly what fails in that history -/
 example : ¬ SuicideOk c0 (snapshot sPadded).1 A1 := by decide
 
+/-- historical configuration (height below `Proposal002Block`): `AddFT`/`SubFT` write the balance slot
+    without a journal entry, so the revert does not restore the balance — why every restoration theorem
+    here carries `c.p002 = true` (known finding `pre-proposal002-balance-not-journaled`, replayed on the
+    implementation by the searcher and corpus 13) -/
+theorem pre_proposal002_balance_not_restored :
+    let c := { c0 with p002 := false }
+    let s := setBalance c ADB.empty A1 7
+    (obs c (revert c (addBalance c (snapshot s).1 A1 2) (snapshot s).2) A1 [] [] []).balance = 9 ∧
+    (obs c s A1 [] [] []).balance = 7 := by
+  decide
+
 /-! ## revision stack -/
 
 /-- a snapshot id is larger than every id on the stack and the stack stays sorted: ids are never reused -/
